@@ -141,6 +141,87 @@ def judgeSet (st : St) (isRef : Bool) (act fin : String) (evs : List String) : S
       | some ref => (st, if runOfReference a (notes es) ref then "accept" else "reject not-a-run-of-the-reference")
   | _, _, _ => (st, "bad-op")
 
+/-! ### recorded logs of the variant subscriptions (stress rounds `varx`) -/
+
+/-- conditions the stress harness uses (values are unique there) -/
+def stressOnceCond (c : Nat) (n : Nat × Nat) : Bool :=
+  match c with
+  | 1 => n.2 % 3 == 0
+  | 2 => decide (n.2 > n.1)
+  | _ => true
+
+def stressWvCond (c : Nat) (v : Nat) : Bool :=
+  match c with
+  | 1 => v % 3 == 0
+  | 3 => v != 0
+  | _ => true
+
+def splitAtU (toks : List String) : List String × Bool × List String :=
+  let pre := toks.takeWhile (· != "u")
+  let rest := toks.dropWhile (· != "u")
+  (pre, !rest.isEmpty, rest.drop 1)
+
+/-- `osub <active|unsubbed> <final> <cond> <g1> ev…` -/
+def judgeOnce (st : St) (act cond g1 : String) (evs : List String) : String :=
+  match parseActive act, cond.toNat?, g1.toNat?, evs.mapM parseVarEv with
+  | some a, some c, some g, some es =>
+    if !exclusive es then "reject overlap"
+    else if !closed es then "reject unfinished"
+    else if !noneAfterUnsub es then "reject after-unsubscribe"
+    else if (notes es).length > 1 then "reject once-twice"
+    else if !onceTraceOk (stressOnceCond c) st.hist g a (notes es) then "reject once-not-the-first-match"
+    else "accept"
+  | _, _, _, _ => "bad-op"
+
+def parseWvEv (tok : String) : Option (WvEv Nat) :=
+  match tok.splitOn ":" with
+  | ["s", v] => v.toNat?.map .setup
+  | ["t", v] => v.toNat?.map .teardown
+  | _ => none
+
+/-- `wsub <active|unsubbed> <final> <cond> ev…` -/
+def judgeWv (st : St) (act fin cond : String) (evs : List String) : String :=
+  let (pre, hasU, post) := splitAtU evs
+  match parseActive act, fin.toNat?, cond.toNat?, pre.mapM parseWvEv with
+  | some a, some f, some c, some tr =>
+    if !post.isEmpty then "reject after-unsubscribe"
+    else if !wvAlternates tr then "reject withvalue-alternation"
+    else if hasU && !wvClosed tr then "reject withvalue-not-closed"
+    else if !wvTraceOk (stressWvCond c) st.hist (a && !hasU) f tr then "reject withvalue-setups"
+    else "accept"
+  | _, _, _, _ => "bad-op"
+
+def parseId (s : String) : Option CtxId :=
+  match s.splitOn "." with
+  | [k, j] => do let k ← k.toNat?; let j ← j.toNat?; pure (k, j)
+  | _ => none
+
+def parseCtxEv (tok : String) : Option (Option (CtxEv (Nat × Nat))) :=
+  if tok == "x" then some none
+  else if tok.startsWith "+" then (parseId (String.ofList (tok.toList.drop 1))).map (fun i => some (.sub i))
+  else if tok.startsWith "~" then (parseId (String.ofList (tok.toList.drop 1))).map (fun i => some (.subNil i))
+  else if tok.startsWith "-" then (parseId (String.ofList (tok.toList.drop 1))).map (fun i => some (.down i))
+  else match tok.splitOn ":" with
+    | ["e", p, n] => do let p ← p.toNat?; let n ← n.toNat?; pure (some (.call (p, n)))
+    | _ => none
+
+/-- `csub <active|unsubbed> <final> ev…` -/
+def judgeCtx (act fin : String) (evs : List String) : String :=
+  let (pre, hasU, post) := splitAtU evs
+  match parseActive act, fin.toNat?, pre.mapM parseCtxEv with
+  | some a, some f, some tr0 =>
+    let tr := tr0.filterMap id
+    let brackets : List (Ev (Nat × Nat)) := pre.filterMap fun t =>
+      if t == "x" then some .exit else if t.startsWith "e:" then some (.enter (0, 0)) else none
+    if !post.isEmpty then "reject after-unsubscribe"
+    else if !closed brackets then "reject overlap"
+    else if !ctxOk tr then "reject context-not-torn-down"
+    else if hasU && !ctxClosed tr then "reject context-not-closed"
+    else if !chainFrom 0 (ctxCalls tr) then "reject chain"
+    else if a && !hasU && lastNew 0 (ctxCalls tr) != f then "reject last-is-not-final"
+    else "accept"
+  | _, _, _ => "bad-op"
+
 /-! ### the driver step -/
 
 def stepLine0 (st : St) (toks : List String) : St × String :=
@@ -151,6 +232,13 @@ def stepLine0 (st : St) (toks : List String) : St × String :=
     | some h => ({ st with hist := h }, "ok")
     | none => (st, "bad-op")
   | "vsub" :: act :: fin :: evs => (st, judgeVar st act fin evs)
+  | "osub" :: act :: _ :: cond :: g1 :: evs => (st, judgeOnce st act cond g1 evs)
+  | "wsub" :: act :: fin :: cond :: evs => (st, judgeWv st act fin cond evs)
+  | "csub" :: act :: fin :: evs => (st, judgeCtx act fin evs)
+  | "rread" :: vs =>
+    match vs.mapM (·.toNat?) with
+    | some rs => (st, if readsOk st.hist rs then "accept" else "reject read-not-in-history-order")
+    | none => (st, "bad-op")
   | "ssub" :: act :: fin :: evs => judgeSet st false act fin evs
   | "sref" :: act :: fin :: evs => judgeSet st true act fin evs
   | ["newset", els] =>
